@@ -391,6 +391,15 @@ func check(tt *testing.T, p Plan) (pbt.Info, error) {
 	}
 	ctx, cancel := context.WithTimeout(context.Background(), 120*time.Second)
 	defer cancel()
+	// prologue (sequential): one over-limit compressed request per handler-side
+	// pool, so that whatever such a request leaves behind in the pools is
+	// there when the concurrent part starts
+	for i, send := range []string{"gzip", "deflate"} {
+		c := CallSpec{ID: 800001 + i, Protocol: prog.Protocols[i%3], Codec: "proto", Kind: prog.Unary, Send: send, NMsgs: 1, Bomb: true}
+		if err := verify(runCall(ctx, client(c), c), "prologue"); err != nil {
+			return info, err
+		}
+	}
 	results := make([][]*result, len(p.Workers))
 	var wg sync.WaitGroup
 	start := make(chan struct{})
@@ -422,6 +431,32 @@ func check(tt *testing.T, p Plan) (pbt.Info, error) {
 			if err := verify(r, "immediately"); err != nil {
 				return info, err
 			}
+		}
+	}
+	// epilogue: a burst of concurrent compressed calls of substantial size on
+	// the shared pools
+	{
+		var wg sync.WaitGroup
+		errs := make(chan error, 64)
+		for w := 0; w < 8; w++ {
+			wg.Add(1)
+			go func(w int) {
+				defer wg.Done()
+				for i := 0; i < 4; i++ {
+					c := CallSpec{ID: 700001 + w*10 + i, Protocol: prog.Protocols[(w+i)%3], Codec: "proto", Kind: prog.Unary, Send: []string{"gzip", "deflate"}[i%2], NMsgs: 1, Size: 60000}
+					if c.ID%5 == 0 {
+						c.ID++ // not one of the calls that fail by design
+					}
+					if err := verify(runCall(ctx, client(c), c), "concurrent burst on the shared pools"); err != nil {
+						errs <- err
+					}
+				}
+			}(w)
+		}
+		wg.Wait()
+		close(errs)
+		for err := range errs {
+			return info, err
 		}
 	}
 	// pool churn, then the values handed to user code must still be intact
@@ -473,7 +508,7 @@ func gen(transport string, maxG, maxK int) func(t *rapid.T) Plan {
 	}
 }
 
-const rule = "plans of G goroutines × K calls with pairwise-distinct, self-describing payloads (every number and text derives from the call id) of mixed protocol, codec, send-compression (none/gzip/deflate/stateful toy), RPC kind, message count and size (0 B..70 KB), all through ONE handler set and ONE shared client per configuration; bidi calls use separate sender and receiver goroutines; some calls carry a compressed request that decompresses beyond the handlers' read limit (must fail alone); built with -race and the buffer-poisoning hook. Oracle: each call's result equals what the same call yields alone (handlers are pure functions of the request), every retained value is re-verified after all calls finished and the pools were churned, and the race detector must stay silent. Non-trivial = calls overlapped in time (in-flight counter ≥ 2) and at least two compression/size classes"
+const rule = "plans of G goroutines × K calls with pairwise-distinct, self-describing payloads (every number and text derives from the call id) of mixed protocol, codec, send-compression (none/gzip/deflate/stateful toy), RPC kind, message count and size (0 B..70 KB), all through ONE handler set and ONE shared client per configuration; bidi calls use separate sender and receiver goroutines; some calls (and a sequential prologue) carry a compressed request that decompresses beyond the handlers' read limit (must fail alone); a burst of 8×4 concurrent 60 KB compressed calls follows the plan; built with -race and the buffer-poisoning hook. Oracle: each call's result equals what the same call yields alone (handlers are pure functions of the request), every retained value is re-verified after all calls finished and the pools were churned, and the race detector must stay silent. Non-trivial = calls overlapped in time (in-flight counter ≥ 2) and at least two compression/size classes"
 
 var specMem = pbt.Spec[Plan]{Prop: "C13", Name: "plans-mem", Gen: gen("mem", 8, 6), Check: check, Rule: rule}
 var specSock = pbt.Spec[Plan]{Prop: "C13", Name: "plans-sock", Gen: gen("sock", 16, 8), Check: check, Rule: "as [plans-mem] over real loopback TCP sockets with net/http's HTTP/2 (h2c) server and transport: real parallel I/O"}
